@@ -698,7 +698,7 @@ RESIZE_TRIPLE = ('FilterConv.set_filter_radius', 'response = convolution with th
 
 
 def probe_resize(ctx, pym):
-    """candidate finding NEW_C09_set_filter_radius_resize: set_filter_radius after construction with a radius of another
+    """candidate finding OUT_OF_SCOPE_C09_set_filter_radius_resize: set_filter_radius after construction with a radius of another
     int(r/dx) leaves pad sizes / index arrays stale.  Outside the generated class (see assumptions); the observation is
     recorded, and reported through the violation protocol only once the triple is registered in known_findings.json."""
     from scipy.signal import convolve as sconv
